@@ -135,6 +135,7 @@ type FuncVC struct {
 	ancMu         sync.Mutex
 	safety        bool
 	sweepNonNil   bool
+	caMatched     map[*CallAssert]bool
 	rebound       map[string]string
 	entryFacts    []Term
 }
